@@ -96,6 +96,15 @@ def run(ctx):
     for i in range(250 if q else 4000):
         toks = lang.repeated_group_tokens(ctx.rng)
         cases.append(pc.record_text(toks, lang.render(toks, ctx.rng, wide=True), ctx.rng.choice(['parse', 'parse', 'enforce', 'load']), 'c01'))
+    # the oslopolicy-checker tool evaluates the same language: fixed sentences (constants, negations, mixed
+    # operators, grouping) with the printed verdict as the decision
+    A, B, C = lang.LEAF0 + 1, lang.LEAF0 + 2, lang.LEAF0 + 3
+    for toks in ([lang.TRUE_TOK], [lang.FALSE_TOK], [lang.NOT, lang.TRUE_TOK], [lang.NOT, lang.FALSE_TOK], [A], [lang.NOT, A], [A, lang.AND, B], [A, lang.OR, B],
+                 [A, lang.OR, B, lang.AND, C], [lang.NOT, A, lang.AND, B], [lang.LP, A, lang.OR, B, lang.RP, lang.AND, lang.NOT, C],
+                 [lang.NOT, lang.LP, A, lang.AND, lang.FALSE_TOK, lang.RP], [A, lang.AND, lang.TRUE_TOK, lang.OR, lang.FALSE_TOK], []):
+        cases.append(pc.record_text(toks, lang.render(toks, ctx.rng, wide=True) if toks else '', 'checker', 'c01'))
+    for outer in ([], [[A, B], [C]], [[lang.FALSE_TOK], [A]], [[lang.TRUE_TOK, A]], [[A], [B]]):
+        cases.append(pc.record_list(outer, pc.list_value(outer, ctx.rng), 'checker', 'c01'))
     n_text = len(cases)
     # list-of-lists shapes
     atoms = [lang.LEAF0 + 1, lang.LEAF0 + 2, lang.TRUE_TOK, lang.FALSE_TOK]
